@@ -94,14 +94,79 @@ def run(eng, pid, tier, repo, scratch, seed):
     return res
 
 
-def search(pid, fails, repo, scratch):
-    # concrete inputs found by the bounded jobs are attached to the failure records themselves
-    for f in fails:
+def collections_of(records):
+    cols = []
+    for r in records:
+        fn = (r.get('function') or r.get('fn') or '') + ' ' + str(r.get('unit') or '')
+        for key, col in (('key::', 'key'), ('map::', 'map'), ('set::', 'set'), ('seg::', 'seg'), ('lspec', 'map'), ('kani::', 'seg')):
+            if key in fn and col not in cols:
+                cols.append(col)
+        u = r.get('unit')
+        if u in ('key', 'map', 'set', 'seg') and u not in cols:
+            cols.append(u)
+        if u == 'lists':
+            for c in ('key', 'map', 'set'):
+                if c not in cols:
+                    cols.append(c)
+    return cols
+
+
+def search(pid, records, repo, scratch, seeds=4000, steps=80):
+    """failing-input search on the real code for the collections behind the failed / undecided obligations.
+    Returns {'found': bool, 'input': str, 'tags': [...]} - a counterexample counts for `pid` only if it is tagged with it."""
+    for f in records:
         if f.get('concrete_input'):
-            return {'found': True, 'input': f['concrete_input'], 'how': 'replay driver on the real code'}
-    return {'found': False}
+            return {'found': True, 'input': f['concrete_input'], 'tags': [pid], 'how': 'bounded contract check of the replay driver on the real code'}
+    try:
+        root = prepare(repo, scratch)
+    except Exception as ex:
+        return {'found': False, 'why': 'replay driver does not build against the current /repo: ' + str(ex)[-400:]}
+    tried = []
+    other = []
+    for col in collections_of(records):
+        try:
+            p = drv(root, ['explore', col, str(seeds), str(steps)], timeout=600)
+        except Exception as ex:
+            tried.append({'collection': col, 'error': repr(ex)})
+            continue
+        line = p.stdout.strip().split('\n')[-1] if p.stdout.strip() else ''
+        try:
+            j = json.loads(line)
+        except Exception:
+            tried.append({'collection': col, 'output': (p.stdout + p.stderr)[-300:]})
+            continue
+        tried.append({'collection': col, 'ok': j.get('ok'), 'histories': j.get('histories')})
+        if not j.get('ok'):
+            ce = j.get('counterexample', '')
+            mo = re.match(r'^(?:seed \d+: )?\[([^\]]*)\]', ce)
+            tags = mo.group(1).split(',') if mo else []
+            rec = {'found': True, 'input': ce, 'tags': tags, 'collection': col,
+                   'how': 'replay driver: pseudo-random histories on the real code against a reference model and the executable invariant',
+                   'rerun': 'replay explore %s %d %d' % (col, seeds, steps)}
+            if pid in tags:
+                rec['tried'] = tried
+                return rec
+            other.append(rec)
+    return {'found': False, 'tried': tried, 'counterexamples_for_other_properties': other[:2]}
 
 
 def rerun(pid, fi, repo):
+    """re-run the recorded failing input against the real code of `repo`"""
+    import tempfile
+    import shutil
     print('failing input recorded in the replay file: %s' % fi.get('input'))
-    return 1
+    cmd = fi.get('rerun')
+    if not cmd:
+        return 1
+    scratch = tempfile.mkdtemp(prefix='itree-verif.replay.', dir='/var/tmp')
+    try:
+        root = prepare(repo, scratch)
+        p = drv(root, cmd.split()[1:], timeout=900)
+        print(p.stdout.strip()[-800:])
+        if p.returncode != 0:
+            print('VIOLATION property=%s replay=(re-run of the recorded exploration reproduces the failing input)' % pid)
+            return 1
+        print('the recorded input no longer fails on %s' % repo)
+        return 0
+    finally:
+        shutil.rmtree(scratch, ignore_errors=True)
